@@ -15,7 +15,12 @@ Results corpus (every document is run through the extractor the router selects f
           cells, list items, link text, speaker notes, page header + footer (every place where text lives has its own decoding
           path; each modifier also gets a variant of the rich document);
   (meta)  per format: each storable property alone (plain value), and all storable properties together with no / each single
-          value feature (16 documents; RTF: also with the \\'xx writer variant);
+          value feature (16 documents; RTF: also with the \\'xx and the \\uN\\'xx writer variants);
+  (mpos)  the VALUE-POSITION family: per format with storable properties, all of them set to a value in which one value feature
+          character (each of the 12 non-white-space ones: & < > " ' &amp; { } backslash, euro sign, non-BMP, RTL) sits at the START
+          of the value, at its END (the last thing before the field's closing delimiter) or is the WHOLE value - the other families
+          put every feature between two tokens; RTF: x the three writer spellings of non-ASCII text (\\uN?, \\'xx, and \\uN\\'xx =
+          escape + one-byte hex fallback, what Word writes); quick = thorough (36 documents per format and spelling);
   (mut)   single-deviation byte mutations of the small document [paragraph, non-BMP/RTL paragraph, table, picture, title]
           of every format (archives: three members txt / html / md):
           truncation at i*len/16, byte XOR 0xFF / 0x01 / 0x20 at i*len/64, and for ZIP packages byte XOR 0x01 / 0x20
@@ -44,6 +49,11 @@ Results corpus (every document is run through the extractor the router selects f
           two suffixes, non-ASCII stem / suffix, and each of the 11 compression / alias suffixes of the platform MIME table (.gz .Z .bz2
           .xz .br .svgz .tgz .taz .tz .tbz2 .txz) alone and stacked on .png; quick: the PNG payload; thorough: PNG, bytes of no picture
           format, zero bytes;
+  (pmem)  the PICTURE MEMBER-STATE family (verif.props.c04_pics), the 8 package formats: the documents [paragraph, picture] and
+          [paragraph, picture, paragraph, picture] with each picture's package member in one of the states ok / crc (CRC-32 mismatch:
+          listed, but the read fails) / method (unknown compression method) / enc (encryption flag) / absent; thorough also crc8 (CRC
+          damage on a deflated member) and bz2 (valid bzip2 member): one picture x every non-ok state, two pictures x every pair of
+          states (not both ok) - 28 documents per format (thorough 54);
   (keys)  the PROPERTY-NAME family (verif.props.c04_keys), 13 formats with an open property namespace (html mhtml epub odt odp odg ods
           docx pptx xlsx rtf eml mbox): the document [paragraph, every storable property with a plain value] plus one extra property whose
           NAME is chosen by the file: every attribute name of every metadata class of the library (reflected: filename, file_extension,
@@ -64,7 +74,7 @@ Results corpus (every document is run through the extractor the router selects f
 x path arguments {None, "a.ext", "dir/a.ext", "/abs/none/a.ext", an existing temp file, "ü ä.ext", "arch.zip!/d/a.ext",
   "", "."}  (mutants that are rejected with path None are not re-run with the other eight; fixture mutants: None only;
   quick: generated mutants with None, the temp file and the unicode name only; pic and cs families: None and the unicode name -
-  the path does not reach pictures or decoders; lab, pfile, keys: None, thorough also the unicode name;
+  the path does not reach pictures or decoders; lab, pfile, pmem, keys, mpos: None, thorough also the unicode name;
   doclines: None).
 
 On every result, and every unit / image / table reachable from it (iterate_units / iterate_images / iterate_tables,
@@ -74,7 +84,8 @@ argument - is called: each accessor once, then all ordered pairs (a, b) on the s
 iterators exhausted, streams read to the end), and b's return value is judged again.
 
 A case is plain JSON: {"body": [...], "meta": {key: [value features]}, "mut": null | [kind, ...], "path": kind}
-(fmt = format; picture and picture-label families: + "pic": {"kind", "w", "h", "uid2", "title", "desc", "name", "cap"} with only the
+(fmt = format; meta value features may end with one position modifier pstart / pend / palone;
+picture families: + "pic": {"kind", "w", "h", "uid2", "title", "desc", "name", "cap", "file", "mem", "mem2"} with only the
 non-default components, body ["text", "img"];
 encoding family: + "cs": {"label", "form"}, body ["text"]; property-name family: + "key": {"name", "form", "sp"}, body ["text"], meta: every
 storable property []) or {"file": fixture, "mut": ..., "path": kind}
@@ -518,7 +529,7 @@ def materialise(fmt, case, seed):
     if fmt not in K.FORMATS:
         return None
     meta = case.get("meta") or {}
-    if any(k not in K.META_KEYS or any(f not in K.VALUE_FEATURES for f in v) for k, v in meta.items()):
+    if any(k not in K.META_KEYS or not K.valid_value(v) for k, v in meta.items()):
         return None
     if case.get("pic") is not None:
         if (not PX.valid(fmt, case["pic"]) or meta or list(case.get("body") or []) != PIC_BODY or case.get("cs") is not None
@@ -611,7 +622,7 @@ def shrinks(case):
     if case.get("pic") is not None:
         # towards the ordinary picture: each component of the description back to its default (PNG, natural size, one UID, natural labels)
         pic = case["pic"]
-        for k in ("uid2", "h", "w", "kind", "file") + PX.LAB_SLOTS:
+        for k in ("uid2", "h", "w", "kind", "file", "mem2", "mem") + PX.LAB_SLOTS:
             if k in pic and pic[k] != PX.DEFAULT[k]:
                 yield dict(case, pic={a: b for a, b in pic.items() if a != k})
         return
@@ -757,6 +768,11 @@ def documents(tier):
         for body in ([["text"]] + [["text", v] for v in K.VARIANTS.get(fmt, [])]) if keys else []:
             for vf in [[]] + [[f] for f in all_feats]:
                 out.append((fmt, {"body": body, "meta": {k: list(vf) for k in keys}, "mut": None}, "meta", True))
+        for body in ([["text"]] + [["text", v] for v in K.VARIANTS.get(fmt, [])]) if keys else []:
+            for f in K.POS_FEATURES:
+                for pos in K.POS:
+                    out.append((fmt, {"body": body, "meta": {k: [f, pos] for k in keys}, "mut": None}, "mpos",
+                                ["none"] if tier == "quick" else PIC_PATHS))
         for mut in mutations(tier, fmt):
             out.append((fmt, small_case(fmt, mut), "mut", True))
         for pic in PX.cases(tier, fmt):
@@ -765,6 +781,8 @@ def documents(tier):
             out.append((fmt, {"body": list(PIC_BODY), "meta": {}, "mut": None, "pic": pic}, "lab", ["none"] if tier == "quick" else PIC_PATHS))
         for pic in PX.file_cases(tier, fmt):
             out.append((fmt, {"body": list(PIC_BODY), "meta": {}, "mut": None, "pic": pic}, "pfile", ["none"] if tier == "quick" else PIC_PATHS))
+        for pic in PX.member_cases(tier, fmt):
+            out.append((fmt, {"body": list(PIC_BODY), "meta": {}, "mut": None, "pic": pic}, "pmem", ["none"] if tier == "quick" else PIC_PATHS))
         for key in KY.cases(tier, fmt):
             out.append((fmt, {"body": list(KY.KEY_BODY), "meta": {k: [] for k in keys}, "mut": None, "key": key}, "keys", ["none"] if tier == "quick" else PIC_PATHS))
         for cs in CS.cases(tier, fmt):
@@ -887,6 +905,10 @@ def run(ctx):
                       "picture_file_formats": list(PX.FILE_FORMATS), "picture_file_names": {k: (v if v is None or len(v) < 40 else v[:12] + "...(%d chars)" % len(v))
                                                                                                for k, v in PX.FILES.items()},
                       "picture_file_kinds": "quick: png; thorough: " + " ".join(PX.FILE_KINDS_THOROUGH),
+                      "picture_member_states": list(PX.MEM if ctx.quick else PX.MEM_THOROUGH),
+                      "picture_member_documents": "one picture x non-ok states; two pictures x pairs of states (not both ok)",
+                      "value_positions": list(K.POS), "value_position_features": list(K.POS_FEATURES),
+                      "rtf_text_spellings": ["u"] + list(K.VARIANTS["rtf"]),
                       "property_name_formats": list(KY.KEY_FORMATS), "property_name_forms": {f: list(v) for f, v in KY.FORMS.items()},
                       "property_names": KY.names(), "property_name_spellings": "quick: asis (html, mhtml: asis upper hyphen); thorough: asis upper hyphen",
                       "charset_labels": sorted(CS.LABELS), "charset_forms": {"html": list(CS.HTML_FORMS), "mhtml": list(CS.MHTML_FORMS),
@@ -897,7 +919,7 @@ def run(ctx):
                    "every single-deviation byte mutation (16 truncations, 64 offsets x XOR {0xFF, 0x01, 0x20}, 3 parts x 64 offsets x XOR "
                    "{0x01, 0x20} inside ZIP packages; quick: every 2nd / 4th, no 0x20, one part) of the small document per format (thorough: also of "
                    "every fixture, quick: of the .doc/.msg fixtures) x 9 path arguments; plus the picture family (payload kind x frame size "
-                   "lexemes, 11 formats), the picture-label family (states of the title / description / name / caption slots, 8 formats), the picture storage-name family (member name lexemes, 8 package formats), the property-name family (reflected metadata attribute names x open-namespace slots, 13 formats), the character-encoding family (charset label x declaration form; html, mhtml, plain text) and the "
+                   "lexemes, 11 formats), the picture-label family (states of the title / description / name / caption slots, 8 formats), the picture storage-name family (member name lexemes, 8 package formats), the picture member-state family (readable / unreadable / absent members x 1-2 pictures, 8 package formats), the value-position family (feature character at start / end / alone in every property; RTF x 3 text spellings), the property-name family (reflected metadata attribute names x open-namespace slots, 13 formats), the character-encoding family (charset label x declaration form; html, mhtml, plain text) and the "
                    ".doc line-recombination family (see bounds; 2 resp. 1 path arguments); on every result / unit / image / table "
                    "each accessor of the reflected alphabet once and then all ordered pairs; evaluations = (document, path) "
                    "extractions; distinct_nontrivial = distinct (result classes, #results, #units, #images, #tables, failing "
